@@ -76,6 +76,38 @@ fn clpz_prog(r: &mut Rng) -> Prog {
     Prog { nvars: nv, nq: nv, take: 0, body, raw: false }
 }
 
+/// FD constraints over HIDDEN variables one of which is aliased to a further variable by `==` (either direction,
+/// before or after the constraint is posted), the query variable unrelated: the constraint is still pending when the
+/// query term has been labelled, and `verify_all_bound` must find the domain of the aliased operand through the
+/// substitution (seeded change C23-g)
+fn fd_alias_prog(r: &mut Rng) -> Prog {
+    let dom = |r: &mut Rng| {
+        let lo = r.range(-2, 2) as isize;
+        D::I(lo, lo + 1 + r.below(3) as isize)
+    };
+    let (x, y, a) = (T::Var(1), T::Var(2), T::Var(3));
+    let c = match r.below(5) {
+        0 => PG::LteFd(x.clone(), y.clone()),
+        1 => PG::DiseqFd(x.clone(), y.clone()),
+        2 => PG::PlusFd(x.clone(), y.clone(), T::Num(r.range(0, 3) as isize)),
+        3 => PG::LtFd(y.clone(), x.clone()),
+        _ => PG::MinusFd(x.clone(), T::Num(1), y.clone()),
+    };
+    let alias = if r.chance(1, 2) { PG::Eq(x.clone(), a.clone()) } else { PG::Eq(a.clone(), x.clone()) };
+    let mut body = vec![PG::InFd(x, dom(r)), PG::InFd(y, dom(r)), c];
+    let pos = r.below(body.len() + 1);
+    body.insert(pos, alias);
+    if r.chance(1, 2) {
+        let pos = r.below(body.len() + 1);
+        body.insert(pos, PG::Eq(T::Var(0), T::Num(1)));
+    }
+    if r.chance(1, 3) {
+        let pos = r.below(body.len() + 1);
+        body.insert(pos, PG::InFd(a, dom(r)));
+    }
+    Prog { nvars: 4, nq: 1, take: 0, body, raw: false }
+}
+
 fn relation_prog(r: &mut Rng) -> Prog {
     let rels: [(&str, usize); 6] = [("member", 2), ("member1", 2), ("append", 3), ("rember", 3), ("distinct", 1), ("permute", 2)];
     let (rel, ar) = *r.pick(&rels);
@@ -123,6 +155,7 @@ pub fn run(seed: u64, thorough: bool, out: &mut Out) {
         record(&Prog { nvars: sg.nq + sg.nh, nq: sg.nq, take, body, raw: false }, true, "search", out);
         // FD (incl. structured query terms and hidden variables), CLP(Z), relations, compounds
         record(&c16::gen_prog(&mut r), true, "fd", out);
+        record(&fd_alias_prog(&mut r), true, "fd_aliased_hidden", out);
         record(&clpz_prog(&mut r), true, "clpz", out);
         record(&relation_prog(&mut r), true, "relations", out);
         // project: reached once (well-formed, must not panic) / twice (known finding)
